@@ -52,12 +52,13 @@ type MsgSpec struct {
 }
 
 type Step struct {
-	Op      string   `json:"op"` // msg | tun | shift | restart | sleep | align
+	Op      string   `json:"op"` // msg | tun | shift | restart | load | sleep | align
 	Msg     *MsgSpec `json:"msg,omitempty"`
 	Peer    int      `json:"peer,omitempty"`
 	Inner   int      `json:"inner,omitempty"`
 	ShiftMs int64    `json:"shift_ms,omitempty"`
 	SleepMs int      `json:"sleep_ms,omitempty"`
+	On      bool     `json:"on,omitempty"` // load: VerifForceUnderLoad on / off
 }
 
 type Scenario struct {
@@ -417,6 +418,9 @@ func (r *runner) describeOut(out cosim.Out, ist *ref.InitiatorState) (gal []stri
 			}
 			gal = append(gal, fmt.Sprintf("ot %d %d %d %d", to, p, d.Receiver, d.Len))
 			human = append(human, fmt.Sprintf("transport to=%d peer=%d receiver=%08x len=%d ctr=%d", to, p, d.Receiver, d.Len, d.Counter))
+		case "cookie":
+			gal = append(gal, fmt.Sprintf("oc %d %d", to, d.Receiver))
+			human = append(human, fmt.Sprintf("cookie-reply to=%d receiver=%08x", to, d.Receiver))
 		default:
 			gal = append(gal, fmt.Sprintf("ot %d 98 %d %d", to, d.TypeWord, d.Len))
 			human = append(human, fmt.Sprintf("%s to=%d len=%d", d.Kind, to, d.Len))
@@ -579,6 +583,13 @@ func runScenario(sc Scenario) (Case, error) {
 		case "restart":
 			body = "br"
 			act = func() { r.w.Dev.Down(); r.w.Dev.Up() }
+		case "load":
+			body = fmt.Sprintf("(bl %v)", s.On)
+			d := time.Duration(0)
+			if s.On {
+				d = 30 * time.Second
+			}
+			act = func() { r.w.Dev.VerifForceUnderLoad(d) }
 		default:
 			return c, fmt.Errorf("unknown op %q", s.Op)
 		}
@@ -603,7 +614,13 @@ func runScenario(sc Scenario) (Case, error) {
 			}
 		}
 		if s.Op == "msg" {
-			if len(out.Sent) > 0 {
+			acc := false
+			for _, h := range hum {
+				if strings.HasPrefix(h, "response") || strings.HasPrefix(h, "transport") {
+					acc = true
+				}
+			}
+			if acc {
 				c.Accepted++
 			} else {
 				c.Inert++
@@ -927,6 +944,7 @@ func (g *gen) strangers() Scenario {
 func (g *gen) mixture() Scenario {
 	var st []Step
 	var sent []*MsgSpec
+	loadOn := false
 	n := 10 + g.r.Intn(15)
 	for i := 0; i < n; i++ {
 		p := g.peer()
@@ -961,8 +979,11 @@ func (g *gen) mixture() Scenario {
 			}
 		case x < 92:
 			st = append(st, stepShift(p, []int64{1000, 1000, 6000, 6000, 100}[g.r.Intn(5)]))
-		case x < 96:
+		case x < 94:
 			st = append(st, stepSleep(60))
+		case x < 97:
+			loadOn = !loadOn
+			st = append(st, Step{Op: "load", On: loadOn})
 		default:
 			st = append(st, stepMsg(g.msg("reflect", p)))
 		}
@@ -972,6 +993,115 @@ func (g *gen) mixture() Scenario {
 
 // Finding F7 black-box: TUN packet -> initiation; Down; Up; TUN packet -> second initiation.
 // aligned: the round starts at the beginning of a 16.7 ms whitening quantum.
+// MAC1-invalid class only (what must stay silent even under load): covered bit flips,
+// covered field substitution without re-MAC, MAC1 for another key, length change, foreign type.
+func (g *gen) alterMac1Invalid(m *MsgSpec) {
+	size := 148
+	fields := []string{"sender", "ephemeral", "enc_static", "enc_timestamp", "mac1"}
+	if m.Kind == "resp" {
+		size = 92
+		fields = []string{"sender", "receiver", "ephemeral", "empty", "mac1"}
+	}
+	switch x := g.r.Intn(100); {
+	case x < 50:
+		m.Muts = append(m.Muts, Mut{"flip", int64(g.r.Intn((size - 16) * 8))})
+	case x < 60:
+		m.Muts = append(m.Muts, Mut{"flip", int64((size-32)*8 + g.r.Intn(128))}) // MAC1 itself
+	case x < 72:
+		m.Muts = append(m.Muts, Mut{"subst", fieldCodes[fields[g.r.Intn(len(fields))]]})
+	case x < 82:
+		m.LenDelta = []int{-3, -2, -1, 1, 2, 3}[g.r.Intn(6)]
+		m.Remac = g.r.Intn(2) == 0
+	case x < 92:
+		m.Mac1Key = []int{keyA, keyB, keyOther}[g.r.Intn(3)]
+	default:
+		m.Muts = append(m.Muts, Mut{"type", []int64{0, 3, 4, 5, 0x101}[g.r.Intn(5)]})
+		m.Remac = g.r.Intn(2) == 0
+	}
+}
+
+// Under load a message that cannot show a valid MAC1 must still draw nothing (not even a
+// cookie reply); the unaltered message draws exactly a cookie reply (load is real), and is
+// accepted once the load is gone.
+func (g *gen) underLoad() Scenario {
+	p := g.peer()
+	var st []Step
+	if g.r.Intn(2) == 0 {
+		st = append(st, stepMsg(g.msg("init", p)), stepShift(p, 1000))
+	}
+	withResp := g.r.Intn(2) == 0
+	if withResp {
+		st = append(st, stepTun(p, 80))
+	}
+	st = append(st, Step{Op: "load", On: true})
+	n := 6 + g.r.Intn(8)
+	for i := 0; i < n; i++ {
+		kind := "init"
+		if withResp && g.r.Intn(2) == 0 {
+			kind = "resp"
+		}
+		m := g.msg(kind, p)
+		g.alterMac1Invalid(m)
+		m.Src = 1 + g.r.Intn(4)
+		st = append(st, stepMsg(m))
+	}
+	v := g.msg("init", p)
+	v.Src = 3
+	st = append(st, stepMsg(v))
+	if withResp {
+		st = append(st, stepMsg(g.msg("resp", p)))
+	}
+	if g.r.Intn(3) == 0 {
+		x := g.msg("init", p)
+		x.Muts = []Mut{{"subst", fieldCodes["enc_timestamp"]}}
+		x.Remac = true
+		st = append(st, stepMsg(x)) // valid MAC1: cookie reply is legitimate (C10), not flagged
+	}
+	st = append(st, Step{Op: "load", On: false}, stepShift(p, 1000), stepMsg(replayOf(g, v, 4)))
+	if withResp {
+		st = append(st, stepMsg(g.msg("resp", p)))
+	}
+	return Scenario{Gen: "under-load", Steps: st}
+}
+
+// Receive side across Down/Up: handshake.Clear must not forget the greatest accepted timestamp.
+func (g *gen) restartReplay() Scenario {
+	p := g.peer()
+	q := 3 - p
+	m1 := g.msg("init", p)
+	m1.TsOff = 5000
+	st := []Step{stepMsg(m1)}
+	if g.r.Intn(2) == 0 {
+		st = append(st, stepTun(q, 80)) // a handshake of the device toward the other peer is in progress
+	}
+	st = append(st, Step{Op: "restart"})
+	if g.r.Intn(2) == 0 {
+		st = append(st, stepSleep(60))
+	} else {
+		st = append(st, stepShift(p, 1000))
+	}
+	st = append(st, stepMsg(replayOf(g, m1, 1+g.r.Intn(4))))
+	offs := []int64{4999, 5000, 0, 5000 - 1<<24}
+	g.r.Shuffle(len(offs), func(i, j int) { offs[i], offs[j] = offs[j], offs[i] })
+	for _, o := range offs[:2+g.r.Intn(3)] {
+		m := g.msg("init", p)
+		m.TsOff = o
+		m.Src = 1 + g.r.Intn(4)
+		st = append(st, stepShift(p, 1000), stepMsg(m))
+	}
+	st = append(st, stepMsg(g.msg("resp", q))) // answers the initiation from before the restart: handshake was cleared
+	m2 := g.msg("init", p)
+	m2.TsOff = 5001 + int64(g.r.Intn(100))
+	m2.Src = 3
+	st = append(st, stepShift(p, 1000), stepMsg(m2), Step{Op: "restart"}, stepShift(p, 1000),
+		stepMsg(replayOf(g, m2, 4)), stepShift(p, 1000), stepMsg(replayOf(g, m1, 1)))
+	m3 := g.msg("init", p)
+	m3.TsOff = 6000
+	st = append(st, stepShift(p, 1000), stepMsg(m3))
+	g.tsOff = 7000
+	return Scenario{Gen: "restart-replay", Steps: st}
+}
+
 func f7Scenario(aligned bool) Scenario {
 	st := []Step{stepTun(keyA, 80), {Op: "restart"}, stepTun(keyA, 80)}
 	if aligned {
@@ -1039,7 +1169,8 @@ func generate(seed int64, n int, tier string, f7rounds int) []Scenario {
 	for _, b := range m2 {
 		scs = append(scs, mk().flipsResp([]int{b}))
 	}
-	fixed := []func(*gen) Scenario{(*gen).lengths, (*gen).substitutions, (*gen).timestamps, (*gen).flood, (*gen).superseded, (*gen).strangers}
+	fixed := []func(*gen) Scenario{(*gen).lengths, (*gen).substitutions, (*gen).timestamps, (*gen).flood, (*gen).superseded, (*gen).strangers,
+		(*gen).underLoad, (*gen).underLoad, (*gen).restartReplay, (*gen).restartReplay}
 	for _, f := range fixed {
 		scs = append(scs, f(mk()))
 	}
@@ -1061,6 +1192,10 @@ func generate(seed int64, n int, tier string, f7rounds int) []Scenario {
 			scs = append(scs, mk().lengths())
 		case x < 70:
 			scs = append(scs, mk().substitutions())
+		case x < 80:
+			scs = append(scs, mk().underLoad())
+		case x < 88:
+			scs = append(scs, mk().restartReplay())
 		default:
 			scs = append(scs, mk().mixture())
 		}
